@@ -248,7 +248,7 @@ Proof.
     destruct c; discriminate.
 Qed.
 Example C09_example_bnaf_values :
-  exb_net [1; 1] = [26; 51] /\ exb_net [1; 100] = [26; 4803] /\ exb_net [2; 1] = [38; 47].
+  exb_net [1; 1] = [22; 30] /\ exb_net [1; 100] = [22; 2802] /\ exb_net [2; 1] = [30; 30].
 Proof. vm_compute. repeat split; reflexivity. Qed.
 (* reachability of the example masks: coordinate 2's parameters cannot be reached from x_2; theorem
    C09_reach_false_independent applies (entry = Some false) *)
